@@ -228,10 +228,11 @@ def check_which(c, repo):
     c.need(len(loops) == 1, 'which: loop not found')
     loop = loops[0]
     itv = loop.iter
-    ok = isinstance(itv, ast.Name)
-    if ok:
+    if isinstance(itv, ast.Name):
         ds = [n for n in iter_nodes(f.node) if isinstance(n, ast.Assign) and itv.id in assigned_names(n)]
         ok = len(ds) == 1 and norm(ds[0].value) == '%s.split(os.pathsep)' % pv
+    else:
+        ok = norm(itv) == '%s.split(os.pathsep)' % pv         # iterated directly
     c.check(ok, f, loop, 'directories are tried in PATH order (split on os.pathsep, unsorted, unfiltered)', witness=norm(loop.iter), kind='ast', tag='path-order')
     dv = loop.target.id if isinstance(loop.target, ast.Name) else None
     joins = [n for n in ast.walk(loop) if isinstance(n, ast.Assign) and isinstance(n.value, ast.Call) and dotted(n.value.func) == 'os.path.join']
@@ -293,17 +294,21 @@ def check_forwarding(c, repo):
     star = [kw for kw in k.keywords if kw.arg is None]
     c.need(len(star) == 1 and isinstance(star[0].value, ast.Name), '_spawn: **kwargs not found')
     kv = star[0].value.id
-    dd = [n for n in iter_nodes(sp.node) if isinstance(n, ast.Assign) and kv in assigned_names(n)]
-    c.need(len(dd) == 1 and isinstance(dd[0].value, ast.Dict), 'kwargs dict literal not found')
-    dct = dict((const_value(kk), norm(vv)) for kk, vv in zip(dd[0].value.keys, dd[0].value.values))
-    c.check(dct.get('echo') == 'self.echo', sp, dd[0], "kwargs['echo'] = self.echo", witness=str(dct), kind='ast', tag='kw-echo')
-    c.check(dct.get('preexec_fn') == 'preexec_fn', sp, dd[0], "kwargs['preexec_fn'] = the user's function", witness=str(dct), kind='ast', tag='kw-preexec')
-    # dimensions
-    dims = [n for n in g.nodes if n.kind == 'stmt' and isinstance(n.ast, ast.Assign) and isinstance(n.ast.targets[0], ast.Subscript)
-            and is_name(n.ast.targets[0].value, kv) and is_const(n.ast.targets[0].slice, 'dimensions')]
-    td = [t for t in g.nodes if t.kind == 'test' and norm(t.ast) == 'dimensions is not None']
-    ok = len(dims) == 1 and is_name(dims[0].ast.value, 'dimensions') and len(td) == 1 and dims[0] in guard_region(g, td[0], 'true')
-    c.check(ok, sp, dims[0].ast if dims else None, 'a requested terminal size is forwarded as dimensions', kind='path', tag='kw-dimensions')
+    # what the keyword dictionary holds when the child is started, for every combination of the two settings that shape it
+    # (built as a literal, key by key, with update(): all the same to this rule)
+    kn0 = g.node_for(k)
+    for ign in (True, False):
+        for dims_given in (True, False):
+            outs = dict_contents_at(g, kn0, kv, {'self.ignore_sighup': ign, 'dimensions is None': not dims_given})
+            c.need(outs is not None and len(outs) >= 1, '_spawn: the contents of **%s could not be determined' % kv)
+            want = {'echo': 'self.echo', 'preexec_fn': 'preexec_wrapper' if ign else 'preexec_fn'}
+            if dims_given:
+                want['dimensions'] = 'dimensions'
+            okd = all(o == want for o in outs)
+            c.check(okd, sp, k, 'ignore_sighup=%s, dimensions %s: the child is started with echo=self.echo, preexec_fn=%s%s' % (
+                ign, 'given' if dims_given else 'not given', 'the SIGHUP-ignoring wrapper' if ign else "the user's function",
+                ', dimensions=dimensions' if dims_given else ' and no dimensions entry'),
+                witness=str(outs), kind='alg', tag='kwargs:%s:%s' % (ign, dims_given))
     # ignore_sighup wrapper
     wr = sp.nested.get('preexec_wrapper', [None])[0]
     c.need(wr is not None, '_spawn: preexec_wrapper not found')
@@ -315,15 +320,7 @@ def check_forwarding(c, repo):
     tn = [t for t in wg.nodes if t.kind == 'test' and norm(t.ast) == 'preexec_fn is not None']
     ok = len(uc) == 1 and len(tn) == 1 and uc[0][0] in guard_region(wg, tn[0], 'true')
     c.check(ok, wr, uc[0][1] if uc else None, 'the user\'s preexec_fn still runs (when given)', kind='path', tag='user-preexec')
-    setw = [n for n in g.nodes if n.kind == 'stmt' and isinstance(n.ast, ast.Assign) and isinstance(n.ast.targets[0], ast.Subscript)
-            and is_name(n.ast.targets[0].value, kv) and is_const(n.ast.targets[0].slice, 'preexec_fn')]
-    ti = [t for t in g.nodes if t.kind == 'test' and norm(t.ast) == 'self.ignore_sighup']
-    ok = len(setw) == 1 and is_name(setw[0].ast.value, 'preexec_wrapper') and len(ti) == 1 and setw[0] in guard_region(g, ti[0], 'true')
-    c.check(ok, sp, setw[0].ast if setw else None, 'the wrapper is installed exactly when ignore_sighup is set', kind='path', tag='wrapper-iff')
-    # everything is in kwargs before the call
     kn = g.node_for(k)
-    for n in dims + setw:
-        c.check(g.path(kn, n, skip_labels=('exc',), include_start=False) is None, sp, n.ast, 'settings are complete before the child is started', tag='complete-before:' + norm(n.ast)[:20])
     for attr, srcattr in (('pid', 'pid'), ('child_fd', 'fd')):
         asg = [n for n in g.nodes if n.kind == 'stmt' and stmt_assigns_attr(n.ast, attr) is not None]
         ok = len(asg) == 1 and norm(asg[0].ast.value) == 'self.ptyproc.' + srcattr and g.path(kn, asg[0], skip_labels=('exc',)) is not None
